@@ -126,9 +126,6 @@ Section Order.
       end
     end.
 
-  Definition well_classed (r : rp) : bool :=
-    match r_class r with ClInjector | ClFallible | ClFinal | ClWrapper => true | _ => false end.
-
   Lemma o_run r rest (IH : forall w d, fst (fst (sem (list nat) o_fn o_wrap 0 rest w d)) = w ++ expected rest /\
                                      snd (sem (list nat) o_fn o_wrap 0 rest w d) = true) d :
     forall n w lastu count,
@@ -197,3 +194,79 @@ Proof.
     + eapply best_entry_implements; [|exact Eb]. exact I.
     + intros dep Hd. rewrite <- Ef in Hd. apply filter_In in Hd. destruct Hd as [_ Hd]. exact Hd.
 Qed.
+
+(* ---------- the reference semantics never fails on well-classed programs (C04) ---------- *)
+Section SemTotal.
+  Variable W : Type.
+  Variable beh_fn : nat -> W -> list val -> W * list val.
+  Variable beh_wrap : nat -> W -> list val -> wtree W.
+  Variable errT : nat.
+
+  Lemma run_sem_ok r (srest : W -> (nat -> val) -> W * (nat -> val) * bool) d :
+    (forall w d', snd (srest w d') = true) ->
+    forall t lastu count, snd (run_sem W r srest d t lastu count) = true.
+  Proof.
+    intros Hrest. induction t as [w1 rets | w1 iargs k IH]; intros lastu count; simpl; [reflexivity|].
+    pose proof (Hrest w1 (upd_list d (r_outs r) iargs)) as H.
+    destruct (srest w1 (upd_list d (r_outs r) iargs)) as [[w2 u2] ok]. simpl in H. subst ok. simpl. apply IH.
+  Qed.
+
+  Theorem sem_ok : forall prog, forallb well_classed prog = true -> forall w d,
+    snd (sem W beh_fn beh_wrap errT prog w d) = true.
+  Proof.
+    induction prog as [|r rest IH]; intros Hwc w d; simpl; [reflexivity|].
+    simpl in Hwc. apply andb_true_iff in Hwc. destruct Hwc as [Hr Hrest]. specialize (IH Hrest).
+    unfold well_classed in Hr. destruct (r_class r) eqn:Ec; try discriminate.
+    - destruct (beh_fn (r_pid r) w (look d (r_ins r))) as [w1 outs].
+      destruct (negb (is_nil (nth (r_tepos r) outs VInvalid))); [reflexivity | apply IH].
+    - destruct (beh_fn (r_pid r) w (look d (r_ins r))) as [w1 outs]. apply IH.
+    - apply run_sem_ok. intros w' d'. apply IH.
+    - destruct (beh_fn (r_pid r) w (look d (r_ins r))) as [w1 rets]. reflexivity.
+  Qed.
+
+  Theorem sem_static_ok : forall prog failed w d, snd (sem_static W beh_fn prog failed w d) = true.
+  Proof.
+    induction prog as [|r rest IH]; intros failed w d; simpl; [reflexivity|].
+    destruct (r_class r); try apply IH;
+      (destruct failed; [apply IH|]);
+      destruct (beh_fn (r_pid r) w (look d (r_ins r))) as [w1 outs]; try apply IH.
+    destruct (negb (is_nil (nth (r_tepos r) outs VInvalid))); apply IH.
+  Qed.
+
+  (* no session step ever reports a panic *)
+  Theorem sem_session_no_panic p : forallb well_classed (sp_run p) = true ->
+    forall steps s, sq_ok W s = true ->
+      ~ In RPanic (snd (sem_session W beh_fn beh_wrap errT p s steps)) /\
+      sq_ok W (fst (sem_session W beh_fn beh_wrap errT p s steps)) = true.
+  Proof.
+    intros Hwc. induction steps as [|st r IH]; intros s Hok; simpl; [split; [intros [] | exact Hok]|].
+    assert (Hstep : sq_ok W (fst (sem_step W beh_fn beh_wrap errT p s st)) = true /\
+                    snd (sem_step W beh_fn beh_wrap errT p s st) <> RPanic).
+    { unfold sem_step. rewrite Hok. simpl. destruct st.
+      - destruct (sp_init p) as [ir|]; [|split; [exact Hok | discriminate]].
+        destruct (beh_fn (r_pid ir) (sq_w W s) []) as [w0 args].
+        destruct (sq_done W s); [split; [reflexivity | discriminate]|].
+        pose proof (sem_static_ok (sp_static p) false w0 (upd_list (sq_base W s) (r_outs ir) args)) as Hs.
+        destruct (sem_static W beh_fn (sp_static p) false w0 (upd_list (sq_base W s) (r_outs ir) args)) as [[w1 d1] ok].
+        simpl in Hs. subst ok. split; [reflexivity | discriminate].
+      - destruct (beh_fn (r_pid (sp_invoke p)) (sq_w W s) []) as [w0 args].
+        assert (Hpre : exists w1 d1 done1,
+          (match sp_init p with
+           | Some _ => (w0, sq_base W s, true, sq_done W s)
+           | None => if sq_done W s then (w0, sq_base W s, true, true)
+                     else match sem_static W beh_fn (sp_static p) false w0 (sq_base W s) with
+                          | (w1, d1, ok) => (w1, d1, ok, true) end
+           end) = (w1, d1, true, done1)).
+        { destruct (sp_init p); [eauto|]. destruct (sq_done W s); [eauto|].
+          pose proof (sem_static_ok (sp_static p) false w0 (sq_base W s)) as Hs.
+          destruct (sem_static W beh_fn (sp_static p) false w0 (sq_base W s)) as [[w1 d1] ok]. simpl in Hs. subst ok. eauto. }
+        destruct Hpre as (w1 & d1 & done1 & Hp). rewrite Hp. simpl.
+        pose proof (sem_ok (sp_run p) Hwc w1 (upd_list d1 (r_outs (sp_invoke p)) args)) as Hr.
+        destruct (sem W beh_fn beh_wrap errT (sp_run p) w1 (upd_list d1 (r_outs (sp_invoke p)) args)) as [[w2 u2] ok2].
+        simpl in Hr. subst ok2. split; [reflexivity | discriminate]. }
+    destruct (sem_step W beh_fn beh_wrap errT p s st) as [s1 r1]. simpl in Hstep. destruct Hstep as [Hok1 Hr1].
+    destruct (IH s1 Hok1) as [Hn Hok2].
+    destruct (sem_session W beh_fn beh_wrap errT p s1 r) as [s2 rs]. simpl in *.
+    split; [|exact Hok2]. intros [E|Hin]; [apply Hr1; exact E | apply Hn; exact Hin].
+  Qed.
+End SemTotal.
